@@ -53,6 +53,22 @@ Definition client_serialize (r : creq) : option bytes :=
     end
   else None.
 
+(* the body source raises (OSError / Exception, handled in _write_bytes) after k pieces were written: the writes so
+   far, and write_eof() only if the code also runs it after a handled failure (Generated: it does not) *)
+Definition body_pieces (b : cbody) : list bytes :=
+  match b with BPieces ps => ps | BBytes d => [d] | BNone => [] end.
+Definition aborted_ops (r : creq) (head : bytes) (k : nat) : list wop :=
+  (if writer_chunking_enabled (c_chunked r) then [WEnableChunking] else []) ++
+  WHeaders head :: map WWrite (firstn k (body_pieces (c_body r))) ++
+  (if write_eof_only_after_success then [] else [WEof []]).
+Definition client_serialize_aborted (r : creq) (k : nat) : option bytes :=
+  if method_ok (c_method r) then
+    match serialize_headers (status_line r) (c_headers r) with
+    | Some head => Some (snd (wrun winit (aborted_ops r head k)))
+    | None => None
+    end
+  else None.
+
 (* the bytes handed to the writer as body *)
 Definition body_bytes (b : cbody) : bytes :=
   match b with BNone => [] | BBytes d => d | BPieces ps => concat ps end.
